@@ -99,6 +99,25 @@ def _run_cmp(body, du, facts, rs, ro, idx, st):
             bi = t.j["target"]
         elif t.kind == "switch":
             if t.j.get("discr_ty") != "bool":
+                # `match a.cmp(&b) { Ordering::Equal => .., unequal => unequal }`: the discriminant of a comparison result
+                dt = du.operand_term(t.discr, 14)
+                while dt[0] in ("var", "cast"):
+                    dt = dt[3] if dt[0] == "var" else dt[1]
+                if dt[0] == "discr" and (dt[2] or "").endswith("cmp::Ordering"):
+                    r_ = _result_of(dt[1], st)
+                    want = {"<": "Less", "=": "Equal", ">": "Greater"}.get(r_)
+                    if want is None:
+                        raise ValueError("comparator matches on a comparison the abstraction cannot evaluate: %s" % r_)
+                    nxt = None
+                    for val, tgt in t.switch_edges():
+                        if val is None:
+                            if nxt is None:
+                                nxt = tgt
+                        elif facts.variant_of_discr(dt[2], val) == want:
+                            nxt = tgt
+                            break
+                    bi = nxt
+                    continue
                 raise ValueError("comparator switches on a non-boolean value")
             v = _eval_pred(du.operand_term(t.discr, 12), rs, ro, idx)
             nxt = None
